@@ -394,6 +394,26 @@ func xIfThenElse(s, inst jv) (jv, jv) {
 	}), inst
 }
 
+// xIfDoubleNegation: every if / then / else part P -> {"not":{"not":P}}: equivalent, but the
+// matchIf argument is now the validator matchN(0,[matchN(0,[P'])]), which is never bottom
+// itself even when P' is ("an equivalent satisfiable-looking part that never matches").
+func xIfDoubleNegation(s, inst jv) (jv, jv) {
+	return mapSchemas(s, func(o jobj) jobj {
+		if _, ok := o.get("if"); !ok {
+			return o
+		}
+		out := jobj{}
+		for _, e := range o {
+			if e.k == "if" || e.k == "then" || e.k == "else" {
+				out = append(out, jkv{e.k, jobj{{"not", jobj{{"not", e.v}}}}})
+			} else {
+				out = append(out, e)
+			}
+		}
+		return out
+	}), inst
+}
+
 // xIsolate: every group of keywords that the importer turns into a separate conjunct of one CUE
 // value becomes its own allOf member, evaluated on its own by matchN, so that a closed struct
 // never meets an open struct of another conjunct.  Keywords that interact stay together
@@ -575,6 +595,7 @@ func c13Xforms(inst jv) []c13Xform {
 		{"defs-bare-validator", xDefsOpen, ""},
 		{"propertyNames", xDropPropertyNames, ""},
 		{"additionalProperties-with-required", xRequiredApart, ""},
+		{"matchIf-eager-bottom", xIfDoubleNegation, "matchIf-bottom-arg"},
 		{"matchIf-eager-bottom", xIfThenElse, "matchIf-bottom-arg"},
 		{"contains-incomplete-swallowed", xContains, "contains-standalone-differs"},
 		{"closedness-lost", xIsolate, "has-closed-struct"},
